@@ -214,9 +214,20 @@ func logsEqual(a, b []*ethtypes.Log) bool {
 }
 
 func newC14Backend(n *c14Node, idx *indexer.KVIndexer) *backend.Backend {
+	return newC14BackendCfg(n, idx, nil)
+}
+
+func newC14BackendCfg(n *c14Node, idx *indexer.KVIndexer, cfg map[string]interface{}) *backend.Backend {
 	sctx := server.NewDefaultContext()
 	sctx.Viper.Set("telemetry.global-labels", []interface{}{})
+	for k, v := range cfg {
+		sctx.Viper.Set(k, v)
+	}
 	return backend.NewBackend(sctx, log.NewNopLogger(), n.cctx, idx)
+}
+
+func abciTxResult(height int64, index uint32, tx []byte, res *abci.ExecTxResult) abci.TxResult {
+	return abci.TxResult{Height: height, Index: index, Tx: tx, Result: *res}
 }
 
 func runC14(cs c14Case) *Outcome {
